@@ -152,7 +152,7 @@ pub fn run_batch(args: BatchArgs) -> i32 {
                 let mut ctl = case.clone();
                 ctl.ops.truncate(i + 1);
                 ctl.ops.retain(|op| !matches!(op, Op2::InvTag(_) | Op2::InvEvent(_) | Op2::InvDep(_) | Op2::InvName(_) | Op2::InvWith { .. } | Op2::InvAllWith(_)));
-                if child_fails(&args, &[ctl], "C13", "*") {
+                if child_fails(&args, &[ctl], "C13", &format!("~{}", c.name)) {
                     c.owners.retain(|o| o != "C13");
                     b.res.counters.inc("control.fails_without_invalidation_too");
                 }
@@ -167,7 +167,7 @@ pub fn run_batch(args: BatchArgs) -> i32 {
                     }
                 }
                 ctl.actors = 1;
-                if child_fails(&args, &[ctl], "C14", "*") {
+                if child_fails(&args, &[ctl], "C14", &format!("~{}", c.name)) {
                     c.owners.retain(|o| o != "C14");
                     b.res.counters.inc("control.fails_on_one_thread_too");
                 }
@@ -310,7 +310,7 @@ pub fn replay(rp: &Replay, path: &str, quiet: bool) -> i32 {
         println!("  {l}");
     }
     match ex.deviation {
-        Some((i, c)) if rp.clause == "*" || (c.name == rp.clause && c.owned_by(&rp.property)) => {
+        Some((i, c)) if rp.clause == "*" || rp.clause.strip_prefix('~') == Some(c.name.as_str()) || (c.name == rp.clause && c.owned_by(&rp.property)) => {
             if !quiet {
                 println!("VIOLATION property={} replay={}", rp.property, path);
                 println!("  clause={} at operation {i}: {}", c.name, c.detail);
